@@ -33,28 +33,29 @@ type Violation struct {
 
 // Result is what a worker writes for the driver.
 type Result struct {
-	Property     string                 `json:"property"`
-	Tier         string                 `json:"tier"`
-	Shard        int                    `json:"shard"`
-	NShards      int                    `json:"nshards"`
-	Evaluations  int64                  `json:"evaluations"`
-	States       int64                  `json:"states"`
-	Transitions  int64                  `json:"transitions"`
-	Traces       int64                  `json:"traces"`
-	DistinctKeys []string               `json:"distinct"` // hashed keys of distinct non-trivial cases
-	Samples      []interface{}          `json:"samples"`
-	Violations   []Violation            `json:"violations"`
-	NViolations  int64                  `json:"nviolations"`
-	ClassCounts  map[string]int64       `json:"class_counts"`
-	Exhaustive   bool                   `json:"exhaustive"`
-	Bound        string                 `json:"bound"`
-	Rule         string                 `json:"rule"`
-	Notes        []string               `json:"notes"`
-	Extra        map[string]interface{} `json:"extra"`
-	Counters     map[string]int64       `json:"counters"`
-	WallS        float64                `json:"wall_s"`
-	Done         bool                   `json:"done"`
-	Known        map[string]*KnownHit   `json:"known"`
+	Property      string                 `json:"property"`
+	Tier          string                 `json:"tier"`
+	Shard         int                    `json:"shard"`
+	NShards       int                    `json:"nshards"`
+	Evaluations   int64                  `json:"evaluations"`
+	States        int64                  `json:"states"`
+	Transitions   int64                  `json:"transitions"`
+	Traces        int64                  `json:"traces"`
+	DistinctKeys  []string               `json:"distinct"` // hashed keys of distinct non-trivial cases
+	DistinctCount int64                  `json:"distinct_count"`
+	Samples       []interface{}          `json:"samples"`
+	Violations    []Violation            `json:"violations"`
+	NViolations   int64                  `json:"nviolations"`
+	ClassCounts   map[string]int64       `json:"class_counts"`
+	Exhaustive    bool                   `json:"exhaustive"`
+	Bound         string                 `json:"bound"`
+	Rule          string                 `json:"rule"`
+	Notes         []string               `json:"notes"`
+	Extra         map[string]interface{} `json:"extra"`
+	Counters      map[string]int64       `json:"counters"`
+	WallS         float64                `json:"wall_s"`
+	Done          bool                   `json:"done"`
+	Known         map[string]*KnownHit   `json:"known"`
 }
 
 // KnownHit counts violations that matched an entry of known_findings.json.
@@ -271,7 +272,11 @@ func (r *Run) Finish(exhaustive bool, bound, rule string) {
 	r.Done = true
 	r.WallS = time.Since(r.start).Seconds()
 	r.DistinctKeys = r.DistinctKeys[:0]
+	r.DistinctCount = int64(len(r.distinct))
 	for k := range r.distinct {
+		if len(r.distinct) > 50000 {
+			break
+		}
 		r.DistinctKeys = append(r.DistinctKeys, hex.EncodeToString(k[:]))
 	}
 	sort.Strings(r.DistinctKeys)
@@ -282,7 +287,7 @@ func (r *Run) Finish(exhaustive bool, bound, rule string) {
 	if r.out == "" {
 		// stand-alone run: summary on stdout
 		fmt.Printf("verifrt: %s tier=%s shard=%d/%d evaluations=%d states=%d transitions=%d distinct=%d violations=%d exhaustive=%v bound=%q wall=%.1fs\n",
-			r.Property, r.Tier, r.Shard, r.NShards, r.Evaluations, r.States, r.Transitions, len(r.DistinctKeys), r.NViolations, r.Exhaustive, bound, r.WallS)
+			r.Property, r.Tier, r.Shard, r.NShards, r.Evaluations, r.States, r.Transitions, r.DistinctCount, r.NViolations, r.Exhaustive, bound, r.WallS)
 		for _, v := range r.Violations {
 			fmt.Printf("  violation class=%s key=%s: %s\n", v.Class, v.Key, v.Desc)
 		}
